@@ -22,7 +22,7 @@ def conditions(tier, seed):
                         bound='three creations, each with 0..2 positional ids x 4 keyword subsets',
                         symbolic=['explicit id values u1, u2'], case_split=['p1..p3', 'k1..k3']))
     out.append(Cond('intgen_step', 'c19_new.py', {}, func='check_intgen', timeout=t,
-                    bound='arbitrary generator state c (unbounded int), up to 4 peek/next calls in any order',
+                    bound='arbitrary generator state c (unbounded int), up to 4 calls out of peek / next / abandoned for-loop / next(iter(g)) in any order',
                     symbolic=['c'], case_split=['n', 'ops']))
     out.append(Cond('intgen_fresh', 'c19_new.py', {}, func='check_intgen_fresh', timeout=t,
                     bound='first n <= 6 values of a fresh IntegerGenerator', case_split=['n']))
